@@ -307,7 +307,7 @@ def async_spec_funcs(c):
         raise Unsupported('isinstance(..., %s)' % n)
     def gather(I, args, kwargs, fr):
         return VAw(z3.Const(sym.fresh_name('gather'), sym.Aw))
-    return {'isinstance': isinstance_hook, 'builtin_asyncio.gather': gather,
+    return {'isinstance': isinstance_hook, 'builtin_asyncio.gather': gather, 'builtin_gen.convert_yielded': gather, 'builtin_gen.multi': gather,
             'builtin_inspect.iscoroutine': narrower('is_coroutine'), 'builtin_asyncio.iscoroutine': narrower('is_coroutine'),
             'builtin_inspect.isawaitable': isawaitable,
             'builtin_gen.is_future': narrower('is_future'), 'builtin_asyncio.isfuture': narrower('is_future'),
